@@ -35,9 +35,9 @@ set_option linter.unusedVariables false
 namespace MitmVerif.Props.C43
 open MitmVerif MitmVerif.C43
 
-/-- the flows that were changed behind the view's back (`mutate`) and have not been re-evaluated since: a flow is
-    current again after its own add / update / settings write, all flows are after clear, clear-unmarked, set_filter
-    or toggle_marked (`dirtyStep`) -/
+/-- the flows that were changed behind the view's back (`mutate`) in a way that changed their visibility or their key
+    under the selected order, and have not been re-evaluated since: a flow is current again after its own add / update /
+    settings write, all flows are after clear, clear-unmarked, set_filter or toggle_marked (`dirtyStep`) -/
 def stale (ops : List Op) : List Nat := (runD ops).2
 
 private theorem sorted_current {s : VS} {D : List Nat} (h : Good s D) :
@@ -492,8 +492,10 @@ example : shown (run [.add 0 aU, .add 1 aM, .setOrder 4, .setReversed true]) = [
 example : shown (run [.setOrder 4, .add 0 aU, .add 1 aM, .focus 0, .mutate 0 aBig, .remove 0]) = [1] := by decide
 example : (run [.setOrder 4, .add 0 aU, .add 1 aM, .focus 0, .mutate 0 aBig, .remove 0]).focus = some 1 := by decide
 example : (run [.setOrder 4, .add 0 aU, .add 1 aM, .focus 0, .mutate 0 aBig, .remove 0]).trace.contains (.vrm 0 0) = true := by decide
-example : stale [.add 0 aU, .mutate 0 aBig, .add 1 aM] = [0] := by decide
-example : stale [.add 0 aU, .mutate 0 aBig, .update 0 aBig] = [] := by decide
+example : stale [.setOrder 4, .add 0 aU, .mutate 0 aBig, .add 1 aM] = [0] := by decide
+/-- … under the time order the growth of the flow changes neither its key nor its visibility: it is not stale -/
+example : stale [.add 0 aU, .mutate 0 aBig, .add 1 aM] = [] := by decide
+example : stale [.setOrder 4, .add 0 aU, .mutate 0 aBig, .update 0 aBig] = [] := by decide
 /-- a history in terms of the real flow data: two HTTP flows with methods POST and GET, ordered by method -/
 example : shown (run ([ROp.add 0 (.http 0 [80, 79, 83, 84] [] none none) false [], ROp.add 1 (.http 1 [71, 69, 84] [] none none) false [],
     ROp.setOrder 2].map (toOp (rankIn (keysOf [ROp.add 0 (.http 0 [80, 79, 83, 84] [] none none) false [],
